@@ -1,4 +1,5 @@
 import NflowsModel.Audit.Tool
 import NflowsModel.Properties.C19
+import NflowsModel.Properties.C19R
 
 #audit_namespace Properties.C19
